@@ -96,6 +96,7 @@ for _pid in ("C03", "C06", "C09", "C11", "C13"):
     PROPS[_pid]["theorem_modules"] = PROPS[_pid]["theorem_modules"] + ["DecProofs.Properties.C06GenFromInt"]
 PROPS["C19"]["theorem_modules"] = PROPS["C19"]["theorem_modules"] + ["DecProofs.Properties.C19GenDpd"]
 PROPS["C18"]["theorem_modules"] = PROPS["C18"]["theorem_modules"] + ["DecProofs.Properties.C18GenTotalOrder"]
+PROPS["C11"]["theorem_modules"] = PROPS["C11"]["theorem_modules"] + ["DecProofs.Properties.C11GenScale"]
 for _pid in ("C13", "C12", "C09"):
     PROPS[_pid]["theorem_modules"] = PROPS[_pid]["theorem_modules"] + ["DecProofs.Properties.C13GenNoncomp"]
 for _pid in ("C01", "C04", "C09", "C10", "C11", "C13"):
